@@ -155,6 +155,9 @@ func init() {
 		s := e.allocSlice(st, types.Typ[types.Uint8], ln, ln)
 		cl := "E:uint8"
 		st.Heap[cl] = tb.Store(e.H(st, cl, SArr2I), s.slArr(), tb.App("bigbytes", SArrI, x))
+		// SetBytes(x.Bytes()) == |x|
+		e.Assumed["math/big: SetBytes(x.Bytes()) yields |x| (bytes2big is the inverse of bigbytes)"] = true
+		e.assume(st, tb.Eq(tb.App("bytes2big", SInt, tb.App("bigbytes", SArrI, x), tb.Int(0), ln), tb.Ite(tb.Lt(x, tb.Int(0)), tb.Neg(x), x)))
 		k(st, s)
 	}
 	libSpecs["(*math/big.Int).BitLen"] = func(e *Engine, st *State, fn *ssa.Function, args []Val, pos token.Pos, k Kont) {
